@@ -42,8 +42,24 @@ class _IDiv(nn.Module):
         return self.b(h)
 
 
+class _Heads(nn.Module):
+    """n small heads applied to the same float input (more scales than any slot table of a few hundred entries)"""
+
+    def __init__(self, n=160):
+        super().__init__()
+        self.heads = nn.ModuleList([nn.Linear(8, 2) for _ in range(n)])
+
+    def forward(self, x):
+        return [h(x) for h in self.heads]
+
+
 def _build(name, dt):
     torch.manual_seed(0)
+    if name == "heads160":
+        m = _Heads()
+        for k, p in enumerate(m.parameters()):
+            models._fill(p, k)
+        return m.to(dt).eval()
     if name == "lin_idiv_lin":
         m = _IDiv()
         for k, p in enumerate(m.parameters()):
@@ -116,6 +132,9 @@ def plan(tier, seed):
         for aname in num.Q8:
             for mom in (0.5, 0.9) if tier == "quick" else MOMENTA:
                 tasks.append({"model": name, "a": aname, "momentum": mom, "streamline": False, "dt": "float32", "tier": tier, "seqs": _long_seqs(tier)})
+    for aname in num.Q8:
+        for mom in (0.5, 0.9):
+            tasks.append({"model": "heads160", "a": aname, "momentum": mom, "streamline": False, "dt": "float32", "tier": tier, "kinds": ["unit", "x10", "x0.1"], "L": 3, "stale_check": True})
     for name in BIG_SHAPES:
         for aname in num.Q8:
             for mom in ((0.5,) if tier == "quick" else (0.0, 0.5, 0.9)):
@@ -199,7 +218,11 @@ def _run_history(task, seq, split, out, only=False):
                             raw = F.layer_norm(xu, m.normalized_shape, m.weight, m.bias, m.eps)
                         else:
                             if xscale is None:
-                                xu = quantize_activation(xin, num.qt(aname), torch.tensor(r["in"], dtype=torch.float64).to(dt)).dequantize()
+                                # the raw output of this batch is defined relative to the input the module actually saw, i.e. quantized
+                                # with the module's own current input scale (judged separately against the averaging law): with the
+                                # coarse float8 grids a last-bit difference between the reference average and the buffer would
+                                # otherwise flip input codes and move the output range by a few percent
+                                xu = quantize_activation(xin, num.qt(aname), m.input_scale.detach().clone()).dequantize()
                             else:
                                 xu = xin
                             raw = F.linear(xu, wdq, m.bias) if isinstance(m, nn.Linear) else F.conv2d(xu, wdq, m.bias, m.stride, m.padding, m.dilation, m.groups)
@@ -252,6 +275,24 @@ def _run_history(task, seq, split, out, only=False):
                 s = float(sc.to(torch.float64))
                 if amax is not None and amax > (s + num.QSUB[dtname]) * qmax * (1 + 8 * u):
                     out["violations"].append(violation(PID, case, dict(fields, sub="saturates_after_one_batch"), f"saturates_after_one_batch: module {n} {which} absmax {amax!r} > scale*qmax = {s * qmax!r} after calibrating on that single batch"))
+    # after calibration the weights change (in place, version-bumping): the next forward must use the current weights
+    if task.get("stale_check") and len(seq) == 1:
+        try:
+            from optimum.quanto import quantize_weight
+
+            with torch.no_grad():
+                for k, (n, m) in enumerate(qmods):
+                    if k % 3 == 0:
+                        m.weight.zero_()
+                    else:
+                        m.weight.mul_(-1.5)
+            for n, m in qmods:
+                fresh = quantize_weight(m.weight.detach(), m.weight_qtype, 0)
+                if not (num.same_bits(m.qweight._data, fresh._data) and num.same_bits(m.qweight._scale, fresh._scale)):
+                    out["violations"].append(violation(PID, case, dict(fields, sub="stale_qweight"), f"stale_qweight: after calibration the weights of module {n} were changed in place, but the module still uses the quantized weight of the old values"))
+                    break
+        except Exception as e:  # noqa
+            out["violations"].append(violation(PID, case, dict(fields, sub="raised"), f"raised: checking the quantized weights after calibration raised {type(e).__name__}: {str(e)[:160]}"))
     # long-history tasks: the same Calibration object then serves a second model for many batches; the scales of the first model,
     # whose calibration is over, must stay what they were (state carried between models through the context object)
     if task.get("seqs") and split is None:
